@@ -26,6 +26,8 @@ THEOREMS = [
     "HedVerif.C05.refuse_iff",
     "HedVerif.C05.strip_inlibrary",
     "HedVerif.C05.merged_keeps_everything",
+    "HedVerif.C05.rooted_relevel",
+    "HedVerif.C05.child_keeps_shift",
     "HedVerif.C05.escape_roundtrip_partial",
     "HedVerif.C05.escape_counterexample",
 ]
@@ -555,11 +557,16 @@ def check_schema(ctx, impl, case, schema, source_vocab, formats, families=(), vi
     Returns the number of violations it reported."""
     before = len(ctx.violations)
 
-    def report(clause, fmt, merged, detail):
+    def report(clause, fmt, merged, detail, pair=()):
+        """a violation gets a registered signature only if it is the defect of the probe family: right format(s),
+        and - when two schemas differ - the difference sits at the edited entry"""
         sig = None
+        target = (case.get("ops") or [{}])[0].get("name", "\0").casefold()
         for fam in families:
             s, fmts = FAMILIES[fam]
-            if fmt in fmts or (fmt == "cross" and clause == "formats-disagree"):
+            on_fmt = fmt in fmts or (clause == "formats-disagree" and any(x in fmts for x in pair))
+            at_entry = clause == "save-load-raised" or target in str(detail).casefold()
+            if on_fmt and at_entry:
                 sig = s
         ctx.violation(clause, dict(case, fmt=fmt, merged=merged), detail, sig)
     for merged in modes_of(schema):
@@ -586,7 +593,7 @@ def check_schema(ctx, impl, case, schema, source_vocab, formats, families=(), vi
         fm = list(loaded)
         for a, b in zip(fm, fm[1:]):
             if not (loaded[a] == loaded[b]):
-                report("formats-disagree", "cross", merged, f"{a} vs {b}: " + str(first_diff(loaded[a], loaded[b])))
+                report("formats-disagree", "cross", merged, f"{a} vs {b}: " + str(first_diff(loaded[a], loaded[b])), (a, b))
     return len(ctx.violations) - before
 
 
@@ -705,7 +712,6 @@ def model_correspondence(ctx, impl, case, schema):
         ctx.count(f"attr-strings:{mode}", len(ents))
         k += len(ents)
         # 5. model reader on the real lines of the other sections
-        exp_entries = [(u["entry"], u["props"]) for u in ms["unitClasses"]]
         seq = []
         for u in ms["unitClasses"]:
             seq.append((u["entry"], u["props"]))
@@ -717,7 +723,6 @@ def model_correspondence(ctx, impl, case, schema):
             got = None if "err" in a or "dropped" in a else {"name": a["name"], "attrs": canon_attrs(a["attrs"]), "desc": a["desc"]}
             if got != want:
                 ctx.disagree("readEntry (real section line) = written entry", dict(c, line=line), a, want)
-        del exp_entries
 
 
 def impl_readline(impl, raw):
@@ -826,10 +831,11 @@ def grammar_fuzz(ctx, impl, sample_lines, n_attr, n_line):
 # ------------------------------------------------------------------ driver of the check
 
 def compliance_codes(schema):
+    """the compliance issues as a set of (code, message); a schema edit is non-compliant if it adds any"""
     try:
-        return sorted({i["code"] for i in schema.check_compliance()})
+        return sorted({(i["code"], i["message"]) for i in schema.check_compliance()})
     except Exception as e:
-        return [f"raised:{type(e).__name__}"]
+        return [(f"raised:{type(e).__name__}", "")]
 
 
 def run_bundled(ctx, impl, name, files, via_file):
@@ -838,7 +844,7 @@ def run_bundled(ctx, impl, name, files, via_file):
     formats = FORMATS[:2] if name in LEGACY else FORMATS
     case = {"kind": "bundled", "schema": name, "via_file": via_file}
     ctx.case(("bundled", name, via_file), nontrivial=True, sample=case)
-    ctx.count("bundled-compliance-issue-codes:" + name, len(compliance_codes(schema)))
+    ctx.count("bundled-compliance-issues:" + name, len(compliance_codes(schema)))
     check_schema(ctx, impl, case, schema, source, formats, via_file=via_file)
     if not via_file:
         model_correspondence(ctx, impl, case, schema)
@@ -861,7 +867,8 @@ def run_edit(ctx, impl, name, files, ops, families=(), malformed=False, with_mod
         return
     codes = compliance_codes(schema)
     base_codes = BASE_CODES.setdefault(name, compliance_codes(impl.load_schema_version(name)))
-    new_codes = [c for c in codes if c not in base_codes]
+    base_set = set(base_codes)
+    new_codes = sorted({c for c, m in codes if (c, m) not in base_set})
     formats = FORMATS[:2] if name in LEGACY else FORMATS
     if malformed:
         if new_codes:
@@ -878,7 +885,7 @@ def run_edit(ctx, impl, name, files, ops, families=(), malformed=False, with_mod
     if new_codes:
         ctx.count("edit:skipped-noncompliant:" + ",".join(new_codes))
         if os.environ.get("C05_DEBUG"):
-            print("SKIP", [(i["code"], i["message"][:150]) for i in schema.check_compliance() if i["code"] in new_codes][:3], json.dumps(ops)[:600])
+            print("SKIP", [(c, m[:150]) for c, m in codes if (c, m) not in base_set][:3], json.dumps(ops)[:600])
         return
     ctx.case(("edit", json.dumps(case, sort_keys=True)), nontrivial=True, sample=case if ctx.rng.random() < 0.05 else None)
     for op in ops:
@@ -913,8 +920,9 @@ def allowed_words(impl, name, files):
     if issues is None:
         ok = [w for w in WORDS if w.isascii() and w.isalnum()]
     else:
+        base = set(base)
         for i in issues:
-            if i["code"] not in base:
+            if (i["code"], i["message"]) not in base:
                 bad.add(i.get("ec_schema_tag"))
         ok = [op["desc"] for op in ops if op["name"] not in bad]
     WORDS_OK[name] = ok or ["sensor", "value"]
